@@ -21,13 +21,27 @@ type oracleConn struct {
 	closed chan struct{}
 	once   sync.Once
 	remote net.Addr
+	wmu    sync.Mutex
+	wrote  []byte // everything written to the connection (the TLS/DTLS ClientHello carries the server name in clear)
+}
+
+func (c *oracleConn) record(p []byte) {
+	c.wmu.Lock()
+	c.wrote = append(c.wrote, p...)
+	c.wmu.Unlock()
+}
+
+func (c *oracleConn) written() []byte {
+	c.wmu.Lock()
+	defer c.wmu.Unlock()
+	return append([]byte(nil), c.wrote...)
 }
 
 func newOracleConn() *oracleConn {
 	return &oracleConn{closed: make(chan struct{}), remote: &net.UDPAddr{IP: net.IPv4(127, 0, 0, 1), Port: 1234}}
 }
 func (c *oracleConn) Read(p []byte) (int, error)       { <-c.closed; return 0, net.ErrClosed }
-func (c *oracleConn) Write(p []byte) (int, error)      { return len(p), nil }
+func (c *oracleConn) Write(p []byte) (int, error)      { c.record(p); return len(p), nil }
 func (c *oracleConn) Close() error                     { c.once.Do(func() { close(c.closed) }); return nil }
 func (c *oracleConn) LocalAddr() net.Addr              { return &net.UDPAddr{IP: net.IPv4(127, 0, 0, 1), Port: 1} }
 func (c *oracleConn) RemoteAddr() net.Addr             { return c.remote }
@@ -52,7 +66,7 @@ func (c *oracleUDPConn) ReadFrom(p []byte) (int, net.Addr, error) {
 	<-c.closed
 	return 0, nil, net.ErrClosed
 }
-func (c *oracleUDPConn) WriteTo(p []byte, _ net.Addr) (int, error) { return len(p), nil }
+func (c *oracleUDPConn) WriteTo(p []byte, _ net.Addr) (int, error) { c.record(p); return len(p), nil }
 func (c *oracleUDPConn) ReadFromUDP([]byte) (int, *net.UDPAddr, error) {
 	<-c.closed
 	return 0, nil, net.ErrClosed
@@ -61,9 +75,12 @@ func (c *oracleUDPConn) ReadMsgUDP(b, oob []byte) (int, int, int, *net.UDPAddr, 
 	<-c.closed
 	return 0, 0, 0, nil, net.ErrClosed
 }
-func (c *oracleUDPConn) WriteToUDP(b []byte, _ *net.UDPAddr) (int, error) { return len(b), nil }
-func (c *oracleUDPConn) SetReadBuffer(int) error                          { return nil }
-func (c *oracleUDPConn) SetWriteBuffer(int) error                         { return nil }
+func (c *oracleUDPConn) WriteToUDP(b []byte, _ *net.UDPAddr) (int, error) {
+	c.record(b)
+	return len(b), nil
+}
+func (c *oracleUDPConn) SetReadBuffer(int) error  { return nil }
+func (c *oracleUDPConn) SetWriteBuffer(int) error { return nil }
 func (c *oracleUDPConn) WriteMsgUDP(b, oob []byte, _ *net.UDPAddr) (int, int, error) {
 	return len(b), 0, nil
 }
@@ -99,4 +116,20 @@ func (n *oracleNet) plain(c *Client) bool {
 func (n *oracleNet) wrappedTLS(c *Client) bool {
 	_, ok := c.c.(*tls.Conn)
 	return ok
+}
+
+// lastWritten: what was written so far to the most recently dialled connection.
+func (n *oracleNet) lastWritten() []byte {
+	n.mu.Lock()
+	defer n.mu.Unlock()
+	if len(n.conns) == 0 {
+		return nil
+	}
+	switch c := n.conns[len(n.conns)-1].(type) {
+	case *oracleConn:
+		return c.written()
+	case *oracleUDPConn:
+		return c.written()
+	}
+	return nil
 }
